@@ -42,7 +42,7 @@ const (
 
 func c04catalogue() []c04case {
 	var res []c04case
-	for _, kind := range []string{"onStartup", "sync", "event", "schedule", "group"} {
+	for _, kind := range []string{"onStartup", "sync", "event", "schedule", "group", "group2"} {
 		for _, k := range []int{0, 1, 2, 4} {
 			for _, behind := range []string{"none", "same-allow", "diff-allow", "other-hook"} {
 				for _, allow := range []bool{false, true} {
@@ -51,6 +51,9 @@ func c04catalogue() []c04case {
 					}
 					if (kind == "onStartup" || kind == "sync") && (behind == "same-allow" || behind == "diff-allow") {
 						continue
+					}
+					if kind == "group2" && behind != "same-allow" && behind != "diff-allow" {
+						continue // group2: head and the task behind it belong to the same group
 					}
 					res = append(res, c04case{Kind: kind, K: k, HeadAllow: allow, Behind: behind})
 				}
@@ -103,11 +106,15 @@ func c04run(c *vlib.Case, cs c04case, res *vlib.Result) {
 		cfgA["kubernetes"] = []any{m{"name": "kA", "apiVersion": "v1", "kind": "ConfigMap", "allowFailure": cs.HeadAllow, "queue": Q}}
 	case "schedule":
 		sched = append(sched, m{"name": "s1", "crontab": c04cron1, "queue": Q, "allowFailure": cs.HeadAllow})
-	case "group":
+	case "group", "group2":
 		sched = append(sched, m{"name": "s1", "crontab": c04cron1, "queue": Q, "allowFailure": cs.HeadAllow, "group": "grp"})
 	}
 	if cs.Behind == "same-allow" || cs.Behind == "diff-allow" {
-		sched = append(sched, m{"name": "s2", "crontab": c04cron2, "queue": Q, "allowFailure": behindAllow})
+		s2 := m{"name": "s2", "crontab": c04cron2, "queue": Q, "allowFailure": behindAllow}
+		if cs.Kind == "group2" {
+			s2["group"] = "grp"
+		}
+		sched = append(sched, s2)
 	}
 	if len(sched) > 0 {
 		cfgA["schedule"] = sched
@@ -266,7 +273,10 @@ func c04run(c *vlib.Case, cs c04case, res *vlib.Result) {
 	}
 	attempts := aEx[base:]
 	// the head context label
-	headLbl := map[string]string{"onStartup": "onStartup", "sync": "kA/Synchronization", "event": "kA/Event/Added", "schedule": "s1/Schedule", "group": "s1/Group/grp"}[cs.Kind]
+	headLbl := map[string]string{"onStartup": "onStartup", "sync": "kA/Synchronization", "event": "kA/Event/Added", "schedule": "s1/Schedule", "group": "s1/Group/grp", "group2": "s1/Group/grp"}[cs.Kind]
+	if cs.Kind == "group2" && cs.Behind == "same-allow" {
+		headLbl = "s2/Group/grp" // combined with the task behind it and compacted: the last context of the group survives
+	}
 	// consecutive executions that start with the head context (attempts of the same task)
 	nAtt := 0
 	for _, ex := range attempts {
@@ -289,7 +299,7 @@ func c04run(c *vlib.Case, cs c04case, res *vlib.Result) {
 	}
 	if !strict && cs.K > 0 {
 		// allowed failure: the failed execution is dropped, no retry of the same contexts
-		if nAtt > 1 && cs.Arrivals == 0 && cs.Kind != "schedule" && cs.Kind != "group" {
+		if nAtt > 1 && cs.Arrivals == 0 && cs.Kind != "schedule" && cs.Kind != "group" && cs.Kind != "group2" {
 			res.Violate("allowed-failure-retried/"+sigSuffix, "head task with allowFailure executed %d times\n%s", nAtt, desc())
 		}
 	}
@@ -407,6 +417,18 @@ func c04run(c *vlib.Case, cs c04case, res *vlib.Result) {
 			continue
 		}
 		got := succCtx[b] + queued[b]
+		if cs.Kind == "group2" {
+			// both bindings are in one group: combined tasks are compacted to the group's last context
+			// (only when their allowFailure is equal, otherwise they are not combined): existence is
+			// required, for equal allowFailure across the two bindings
+			if cs.Behind == "same-allow" {
+				got = succCtx["s1"] + succCtx["s2"] + queued["s1"] + queued["s2"]
+			}
+			if got == 0 {
+				res.Violate("strict-context-discarded/"+sigSuffix+"/behind="+cs.Behind, "binding %s (allowFailure:false, group grp): %d contexts injected, no Group context of it reached a successful execution or stayed queued (failed executions carried %d)\n%s", b, n, failedCtx[b], desc())
+			}
+			continue
+		}
 		// grouped contexts may legally be compacted (C07): only existence is required
 		if cs.Kind == "group" && b == "s1" {
 			if got == 0 {
